@@ -768,9 +768,9 @@ Qed.
 
 (* ---------- soundness, rule by rule (URI, absolute_URI, URI_reference: UriSoundURI.v, UriSoundAbs.v, UriSoundRef.v) ---------- *)
 Lemma sound_IPv4address : forall s, bytes_ok s -> uri_accepts TIPv4address s -> matches (rfc TIPv4address) s.
-Proof. apply sound_of_cert. vm_compute. reflexivity. Qed.
+Proof. apply sound_of_cert. vm_cast_no_check (eq_refl true). Qed.
 Lemma sound_IPv6address : forall s, bytes_ok s -> uri_accepts TIPv6address s -> matches (rfc TIPv6address) s.
-Proof. apply sound_of_cert. vm_compute. reflexivity. Qed.
+Proof. apply sound_of_cert. vm_cast_no_check (eq_refl true). Qed.
 
 (* ---------- the recorded finding, computed on the generated table ---------- *)
 (* "//1.2.3.4a" *)
